@@ -125,7 +125,7 @@ Arguments RIns {T}. Arguments RInsAt {T}. Arguments RRem {T}. Arguments RDrain {
 
 Definition q_step {T} (q : queries T) (o : qop T) : outcome (queries T * qobs T) :=
   match o with
-  | OIns r => do '(q', i) <- q_insert q r; Ok (q', RIns i)
+  | OIns r => do (q', i) <- q_insert q r; Ok (q', RIns i)
   | OInsAt i r => do q' <- q_insert_at q i r; Ok (q', RInsAt)
   | ORem i => let '(q', r) := q_try_remove q i in Ok (q', RRem r)
   | ODrain => let '(q', l) := q_drain q in Ok (q', RDrain l)
@@ -135,7 +135,7 @@ Definition q_step {T} (q : queries T) (o : qop T) : outcome (queries T * qobs T)
    the table and the observations so far (in order) *)
 Definition q_acc {T} (acc : outcome (queries T * list (qobs T))) (o : qop T)
   : outcome (queries T * list (qobs T)) :=
-  do '(q, tr) <- acc; do '(q', ob) <- q_step q o; Ok (q', tr ++ [ob]).
+  do (q, tr) <- acc; do (q', ob) <- q_step q o; Ok (q', tr ++ [ob]).
 
 Definition q_run_from {T} (q : queries T) (ops : list (qop T)) : outcome (queries T * list (qobs T)) :=
   fold_left q_acc ops (Ok (q, [])).
@@ -180,8 +180,7 @@ Definition q_inv {T} (q : queries T) : Prop :=
   q_count q = count_some (q_vec q) /\
   q_curr q <= lenN (q_vec q) /\
   (forall i, i < q_curr q -> exists r, slot_at (q_vec q) i = Some (Some r)) /\
-  lenN (q_vec q) <= 65534 /\
-  q_count q <= 32768.
+  lenN (q_vec q) <= 65534.
 
 (* ---- executable entry point for the correspondence driver (T = N) ----
    per operation: observation, then count / curr / occupancy after it *)
